@@ -76,14 +76,15 @@ def BOUND(tier):
     }[tier]
 
 
-def word_space(pairs, config):
+def word_space(pairs, config, note=''):
     size, decode_word = events.word_space_events(pairs)
 
     def decode(i):
         return {'config': list(config), 'perturb': PERTURB[i % len(PERTURB)],
                 'word': decode_word(i // len(PERTURB))}
-    return Space('workflow/(S D)^%d x perturbations/%s Sy=%g dt=%d step=%g'
-                 % ((pairs,) + tuple(config)), size * len(PERTURB), decode)
+    return Space('workflow/(S D)^%d x perturbations/%s Sy=%g dt=%d step=%g%s'
+                 % ((pairs,) + tuple(config) + (note,)), size * len(PERTURB),
+                 decode)
 
 
 def coarse_space(pairs):
@@ -149,6 +150,10 @@ def spaces(tier):
         out.append(word_space(2, config))
     out.append(coarse_space(3))
     out.append(decimal_max_space(2 if tier == 'quick' else 3))
+    # the grid step handed over as a Python integer
+    out.append(word_space(2, ('uniform', 2.0, 3600, 1),
+                          ' (an integer)'))
+    out.append(word_space(2, ('concave', 0.5, 1800, 2), ' (an integer)'))
     out.append(far_space(2, CONFIGS[0], 100000.0))
     out.append(far_space(2, CONFIGS[5], -100000.0))
     out.append(sequence_space(4 if tier == 'quick' else 5))
